@@ -46,7 +46,10 @@ private:
 
     ConstGenericSparseMatrix m_mat;
     const Index m_n;
-    Eigen::SparseLU<SparseMatrix> m_solver;
+    // Eigen::SparseLU expects a column-major matrix: Eigen 3.4 factorizes a row-major
+    // input incorrectly unless its sparsity pattern is symmetric
+    using ColMajorSparseMatrix = Eigen::SparseMatrix<Scalar, Eigen::ColMajor, StorageIndex>;
+    Eigen::SparseLU<ColMajorSparseMatrix> m_solver;
 
 public:
     ///
@@ -85,7 +88,8 @@ public:
         SparseMatrix I(m_n, m_n);
         I.setIdentity();
 
-        m_solver.compute(m_mat - sigma * I);
+        ColMajorSparseMatrix mat = m_mat - sigma * I;
+        m_solver.compute(mat);
         if (m_solver.info() != Eigen::Success)
             throw std::invalid_argument("SparseGenRealShiftSolve: factorization failed with the given shift");
     }
